@@ -973,6 +973,31 @@ Plan generate_plan_indexed(const std::string &prop, uint64_t verif_seed, uint64_
             }
         }
     }
-    if (prop == "C05") return gen_C05(seed, r, index);
-    return generate_plan(prop, seed, tier);
+    Plan p = prop == "C05" ? gen_C05(seed, r, index) : generate_plan(prop, seed, tier);
+    // Width sweep: one request of the history repeated N times in a row (fresh sequence number each time), N around the values at
+    // which an 8- or 16-bit count of requests, openers, responses or allocations would wrap.
+    if ((lan || prop == "C17") && !p.api_world && !p.ops.empty() && p.ops.size() < 200) {
+        Rng q(mix64(seed, 0x51DE));
+        if (q.chance(0.015)) {
+            size_t j = (size_t)q.below(p.ops.size());
+            int k0 = p.ops[j].kind;
+            if (k0 == OP_DISCOVER || k0 == OP_EMIT || k0 == OP_QUERY || k0 == OP_QLT || k0 == OP_CHARGE || k0 == OP_HELLO || k0 == OP_PROBE || k0 == OP_RESET || k0 == OP_STRAY) {
+                int64_t N = q.pickl({127, 128, 129, 255, 256, 257, 300});
+                if (tier == "thorough" && q.chance(0.1)) N = q.pickl({32767, 32768, 65535, 65536, 65537});
+                if (k0 == OP_EMIT && p.ops[j].blob.size() > 14 * 4) N = std::min<int64_t>(N, 300);
+                std::vector<Op> rep;
+                for (int64_t k = 1; k < N; k++) {
+                    Op c = p.ops[j];
+                    c.dt = (uint32_t)q.range(1, 4);
+                    c.f.clear();
+                    int sf = k0 == OP_DISCOVER || k0 == OP_STRAY ? 4 : (k0 == OP_EMIT || k0 == OP_QUERY || k0 == OP_QLT || k0 == OP_CHARGE ? 3 : -1);
+                    if (sf >= 0 && c.a[sf] != 0) { c.a[sf] = (c.a[sf] + k) & 0xFFFF; if (c.a[sf] == 0) c.a[sf] = 1; }
+                    rep.push_back(c);
+                }
+                p.ops.insert(p.ops.begin() + (long)j + 1, rep.begin(), rep.end());
+                p.family = p.family * 100 + 60; // marks the sweep in the evidence's family histogram
+            }
+        }
+    }
+    return p;
 }
